@@ -76,7 +76,10 @@ func (a astMap) Map(fn func(int, string) (string, error)) error {
 }
 func (a astMap) MarshalJSON() ([]byte, error) { return a.m.MarshalJSON() }
 func (a astMap) KeyJSON(k int) string         { b, _ := json.Marshal(key(k)); return string(b) }
-func (a astMap) ValJSON(v string) string      { b, _ := json.Marshal(jschema.ASTNode{Value: v}); return string(b) }
+func (a astMap) ValJSON(v string) string {
+	b, _ := json.Marshal(jschema.ASTNode{Value: v})
+	return string(b)
+}
 
 // --- adapter: RuleASTNodes
 
@@ -127,7 +130,32 @@ func init() {
 	omap.Factories["RuleASTNodes(Make)"] = func() omap.Map { return ruleMap{jschema.MakeRuleASTNodes(2)} }
 }
 
-var types = []string{"ASTNodes", "RuleASTNodes", "RuleASTNodes(Make)"}
+// newRuleTwins: two maps from the same arguments of NewRuleASTNodes (a data map and an order list
+// with spare capacity, n entries in them) - each must be a map of its own afterwards.
+func newRuleTwins(n int) func() (omap.Map, omap.Map, []omap.Op) {
+	return func() (omap.Map, omap.Map, []omap.Op) {
+		data := map[string]jschema.RuleASTNode{}
+		order := make([]string, 0, 16)
+		var init []omap.Op
+		for k := 0; k < n; k++ {
+			v := string(rune('p' + k))
+			data[key(k)] = jschema.RuleASTNode{Value: v}
+			order = append(order, key(k))
+			init = append(init, omap.Op{Kind: "set", K: k, V: v})
+		}
+		return ruleMap{jschema.NewRuleASTNodes(data, order)}, ruleMap{jschema.NewRuleASTNodes(data, order)}, init
+	}
+}
+
+func init() {
+	for typ, n := range map[string]int{"RuleASTNodes(New,0)": 0, "RuleASTNodes(New,3)": 3} {
+		tf := newRuleTwins(n)
+		omap.TwinFactories[typ] = tf
+		omap.Factories[typ] = func() omap.Map { m, _, _ := tf(); return m }
+	}
+}
+
+var types = []string{"ASTNodes", "RuleASTNodes", "RuleASTNodes(Make)", "RuleASTNodes(New,0)", "RuleASTNodes(New,3)"}
 
 func TestExhaustive(t *testing.T) {
 	run.SkipIfReplaying(t)
@@ -177,7 +205,12 @@ func TestConcurrent(t *testing.T) {
 			}
 		}
 		before := run.RaceLogSize()
-		if d := omap.Concurrent(omap.Factories[typ], plans); d != "" {
+		maps := []omap.Map{omap.Factories[typ]()}
+		if tf := omap.TwinFactories[typ]; tf != nil {
+			a, b, _ := tf()
+			maps = []omap.Map{a, b}
+		}
+		if d := omap.ConcurrentOn(maps, plans); d != "" {
 			run.Fail(t, chkConc, map[string]any{"map_type": typ, "plans": plans}, "%s", d)
 		}
 		if run.RaceLogSize() > before {
